@@ -2,6 +2,7 @@ package num
 
 import (
 	"fmt"
+	"sort"
 	"go/types"
 	"strings"
 
@@ -93,6 +94,17 @@ func (e *Engine) call(fr *frame, st *State, in *ssa.Call) *State {
 			}
 			outs = append(outs, we)
 			classes = append(classes, 1)
+			continue
+		}
+		if e.selfRecursive(f) && !e.onStack(f) {
+			// self-recursive functions are analysed as roots of their own (any
+			// receiver, any argument); at call sites only their conservative
+			// summary (plus the monotone-field lemma) is used
+			s := st.Clone()
+			e.SummarisedRecursive[shortFn(f)]++
+			e.conservativeCall(nil, s, in, f, args)
+			outs = append(outs, s)
+			classes = append(classes, 2)
 			continue
 		}
 		if e.onStack(f) || len(e.stack) >= e.MaxDepth {
@@ -386,6 +398,10 @@ func (e *Engine) cleanupCallee(rs *State, f *ssa.Function) {
 			}
 		}
 	}
+	// deterministic order (map iteration above is random and the order of
+	// elimination influences precision)
+	sort.Slice(atoms, func(i, j int) bool { return atoms[i] < atoms[j] })
+	atoms = uniqAtoms(atoms)
 	// non-base first (cheap), then base atoms
 	for _, a := range atoms {
 		if _, ok := rs.def[a]; ok {
@@ -441,6 +457,16 @@ func (e *Engine) cleanupCallee(rs *State, f *ssa.Function) {
 	}
 }
 
+func uniqAtoms(a []Atom) []Atom {
+	out := a[:0]
+	for i, x := range a {
+		if i == 0 || x != a[i-1] {
+			out = append(out, x)
+		}
+	}
+	return out
+}
+
 func (e *Engine) aggOwned(obj string, f *ssa.Function) bool {
 	v, ok := e.vidOwner("v" + obj[1:])
 	if !ok || v.Parent() == nil {
@@ -454,18 +480,15 @@ func (e *Engine) aggOwned(obj string, f *ssa.Function) bool {
 	return false
 }
 
-var vidRev map[string]ssa.Value
-var vidRevLen int
-
 func (e *Engine) vidOwner(id string) (ssa.Value, bool) {
-	if vidRev == nil || vidRevLen != len(e.vids) {
-		vidRev = make(map[string]ssa.Value, len(e.vids))
+	if e.vidRev == nil || e.vidRevLen != len(e.vids) {
+		e.vidRev = make(map[string]ssa.Value, len(e.vids))
 		for v, n := range e.vids {
-			vidRev[fmt.Sprintf("v%d", n)] = v
+			e.vidRev[fmt.Sprintf("v%d", n)] = v
 		}
-		vidRevLen = len(e.vids)
+		e.vidRevLen = len(e.vids)
 	}
-	v, ok := vidRev[id]
+	v, ok := e.vidRev[id]
 	return v, ok
 }
 
@@ -496,13 +519,130 @@ func (e *Engine) freshCallResult(st *State, call *ssa.Call) {
 // conservativeCall: the callee is not evaluated (recursion / depth): all memory
 // reachable may change, results are unknown.
 func (e *Engine) conservativeCall(fr *frame, st *State, call *ssa.Call, f *ssa.Function, args []ssa.Value) {
-	for _, a := range args {
-		if ad, ok := e.addrOf(st, a); ok {
-			e.havocObject(st, ad.Obj)
+	if fr != nil {
+		e.RecursionCuts[shortFn(f)]++
+		fr.recCut = true
+	}
+	for i, a := range args {
+		ad, ok := e.addrOf(st, a)
+		if !ok {
+			continue
+		}
+		// monotone-field lemma: slice fields of the receiver that the callee (and
+		// everything it can reach) only ever re-slices cannot grow
+		type keep struct {
+			cell Atom
+			old  Lin
+		}
+		var keeps []keep
+		if i == 0 && len(f.Params) > 0 {
+			if pt, ok := f.Params[0].Type().Underlying().(*types.Pointer); ok {
+				if stt, ok := pt.Elem().Underlying().(*types.Struct); ok {
+					for fi := 0; fi < stt.NumFields(); fi++ {
+						if _, isSlice := stt.Field(fi).Type().Underlying().(*types.Slice); isSlice && e.fieldOnlyResliced(f, pt.Elem(), fi) {
+							c := e.cellLen(ad.Key() + fmt.Sprintf(".f%d", fi))
+							tmp := e.tempAtom(40+len(keeps), e.atoms[c].rng)
+							st.Forget(tmp)
+							st.def[tmp] = st.Expr(c) // tmp holds the value before the call
+							keeps = append(keeps, keep{c, Var(tmp)})
+						}
+					}
+				}
+			}
+		}
+		e.havocObject(st, ad.Obj)
+		for _, k := range keeps {
+			st.Assume(k.old.Sub(Var(k.cell))) // new length <= old length
+			st.Forget(k.old.T[0].A)
 		}
 	}
 	e.havocAllMemory(st)
 	e.freshCallResult(st, call)
+}
+
+// selfRecursive: f contains a static call of itself.
+func (e *Engine) selfRecursive(f *ssa.Function) bool {
+	if v, ok := e.selfRec[f]; ok {
+		return v
+	}
+	res := false
+	for _, b := range f.Blocks {
+		for _, in := range b.Instrs {
+			if c, ok := in.(*ssa.Call); ok {
+				if g, ok := c.Common().Value.(*ssa.Function); ok && g == f {
+					res = true
+				}
+			}
+		}
+	}
+	if e.selfRec == nil {
+		e.selfRec = map[*ssa.Function]bool{}
+	}
+	e.selfRec[f] = res
+	return res
+}
+
+// fieldOnlyResliced: in f and every package function reachable from it, each
+// store into field fi of a value of struct type t stores a re-slice of the
+// same field of the same pointer (x.F = x.F[a:b]); such a field never grows.
+func (e *Engine) fieldOnlyResliced(f *ssa.Function, t types.Type, fi int) bool {
+	key := fmt.Sprintf("%p/%s/%d", f, t.String(), fi)
+	if v, ok := e.resliceCache[key]; ok {
+		return v
+	}
+	seen := map[*ssa.Function]bool{}
+	var work []*ssa.Function
+	work = append(work, f)
+	ok := true
+	for len(work) > 0 && ok {
+		g := work[len(work)-1]
+		work = work[:len(work)-1]
+		if seen[g] || !e.inPkg(g) {
+			continue
+		}
+		seen[g] = true
+		for _, b := range g.Blocks {
+			for _, in := range b.Instrs {
+				switch x := in.(type) {
+				case *ssa.Store:
+					fa, isFA := x.Addr.(*ssa.FieldAddr)
+					if !isFA || fa.Field != fi {
+						continue
+					}
+					pt, isPtr := fa.X.Type().Underlying().(*types.Pointer)
+					if !isPtr || !types.Identical(pt.Elem(), t) {
+						continue
+					}
+					sl, isSlice := x.Val.(*ssa.Slice)
+					if !isSlice {
+						ok = false
+						break
+					}
+					ld, isLoad := sl.X.(*ssa.UnOp)
+					if !isLoad {
+						ok = false
+						break
+					}
+					fa2, isFA2 := ld.X.(*ssa.FieldAddr)
+					if !isFA2 || fa2.Field != fi || fa2.X != fa.X {
+						ok = false
+					}
+				case *ssa.Call:
+					c := x.Common()
+					if g2, isFn := c.Value.(*ssa.Function); isFn && !c.IsInvoke() {
+						work = append(work, g2)
+					} else {
+						work = append(work, e.callees[x]...)
+					}
+				}
+			}
+		}
+	}
+	if e.resliceCache == nil {
+		e.resliceCache = map[string]bool{}
+	}
+	e.resliceCache[key] = ok
+	return ok
 }
 
 // summaryCall: effects of a summarised decoder: it may write the object its
@@ -757,7 +897,8 @@ func (e *Engine) havocMemoryExcept(st *State, spare map[string]bool) {
 		}
 		return false
 	}
-	for key, a := range e.cellAtom {
+	for _, key := range e.sortedCellKeys() {
+		a := e.cellAtom[key]
 		if strings.HasPrefix(key, "pure:") || keep(key) {
 			continue
 		}
